@@ -81,6 +81,23 @@ def gen(repo):
         nm_reduces = False
     else:
         raise ExtractError("id_matches_n_m has an unrecognised body: %r" % sub.strip())
+    # read_data: every pack holding a copy of a blob of a used pack is read (fix of duplicate-blob-copy-unverified)
+    reads_copies = bool(re.search(r"used_blobs\.contains\(&\(b\.tpe,\s*b\.id\)\)", cr)) and \
+        bool(re.search(r"\.filter\(\|p\|\s*packs\.contains\(&p\.id\)\)\s*\.flat_map\(\|p\|\s*p\.blobs\.iter\(\)\.map\(\|b\|\s*\(b\.tpe,\s*b\.id\)\)\)", cr)) and \
+        bool(re.search(r"packs\.contains\(&p\.id\)\s*\|\|\s*p\.blobs\.iter\(\)\.any\(", cr))
+    if reads_copies:
+        f_used = bool(re.search(r"\.filter\(is_used\)", cr))
+    # ReadSubsetOption::apply_with_rng: budget, shuffle, retain while the pack fits
+    ap = fn_body(ck, "apply_with_rng")
+    m1 = re.search(r"if\s+size\s*(>=|>)\s*p_size\s*\{\s*size\s*=\s*size\.saturating_sub\(p_size\);\s*true\s*\}\s*else\s*\{\s*false\s*\}", ap)
+    if not m1 or "packs.shuffle(rng)" not in ap:
+        raise ExtractError("ReadSubsetOption::apply_with_rng: the shuffle/retain loop has an unrecognised shape")
+    fits_exactly = m1.group(1) == ">="
+    pct = bool(re.search(r"Self::Percentage\(p\)\s*=>\s*Some\(\(total_size\s+as\s+f64\s*\*\s*p\s*/\s*100\.0\)\s+as\s+u64\)", ap))
+    szb = bool(re.search(r"Self::Size\(s\)\s*=>\s*Some\(s\)", ap))
+    allb = bool(re.search(r"Self::All\s*=>\s*None", ap))
+    idb = bool(re.search(r"Self::IdSubSet\(\(n,\s*m\)\)\s*=>\s*\{\s*packs\.retain\(\|p\|\s*id_matches_n_m\(&p\.id,\s*n,\s*m\)\);\s*None", ap))
+    subset_shape = pct and szb and allb and idb
     b = lambda x: "true" if x else "false"
     out = ["(* GENERATED by props/C05/extract.py from repofile/packfile.rs and commands/check.rs - do not edit *)",
            "From Coq Require Import NArith Bool.", "Local Open Scope N_scope.",
@@ -97,6 +114,11 @@ def gen(repo):
            "Definition x_filter_missing : bool := %s." % b(f_missing),
            "Definition x_filter_used : bool := %s." % b(f_used),
            "Definition x_snapshot_names_compared : bool := %s." % b(snapname),
+           "(* read_data also reads every pack that holds a copy of a blob of a used pack *)",
+           "Definition x_reads_all_copies : bool := %s." % b(reads_copies),
+           "(* apply_with_rng: All = no budget, Percentage = total*p/100, Size = s, IdSubSet = retain by id; a pack is kept when it fits the remaining budget exactly (>=) or only strictly (>) *)",
+           "Definition x_subset_shape : bool := %s." % b(subset_shape),
+           "Definition x_subset_fits_exactly : bool := %s." % b(fits_exactly),
            "(* check_pack: size, hash, header length, header = index, then per blob length and hash; running offset; unwrap *)",
            "Definition x_check_pack_order : bool := %s." % b(order_ok),
            "Definition x_blob_loop_running_offset : bool := %s." % b(running),
@@ -112,5 +134,6 @@ def gen(repo):
            "(* check_packs: types and contiguous offsets over the sorted blobs *)",
            "Definition x_offsets_checked_on_sorted : bool := %s." % b(offs), ""]
     meta = {"consts": consts, "pack_insert_sites": inserts, "roots": roots, "order_ok": order_ok,
-            "check_index_includes_marked": check_marked, "unreadable_index_aborts_check": idx_abort, "subset_reduces_n": nm_reduces}
+            "check_index_includes_marked": check_marked, "unreadable_index_aborts_check": idx_abort, "subset_reduces_n": nm_reduces,
+            "reads_all_copies": reads_copies, "subset_fits_exactly": fits_exactly}
     return "\n".join(out), meta
